@@ -25,6 +25,7 @@ func init() {
 			{"C15-R3", "kube registry lock discipline", c15r3},
 			{"C15-R4", "a slice's cached endpoints depend on that slice alone", c15r4},
 			{"C15-R5", "no queued event is dropped on the way to its handler", c15r5},
+			{"C15-R6", "the IP a pod was indexed under comes from the cache, not from the event", c15r6},
 		},
 	})
 }
@@ -393,5 +394,61 @@ func c15r5(c *Ctx) {
 			"the wrapper around the resource handlers can return without calling the handler although the object still exists: that event's (old, new) pair is lost - e.g. a label edit immediately followed by a heartbeat is handled as old==new, the service for the pod is never recomputed, and the registry keeps state a cold start would not produce")
 	}
 	c.Check("registerHandlers wrapper found", token.NoPos, n >= 1, "the handler wrapper in registerHandlers was not recognised")
+	c.Floor(2)
+}
+
+// C15-R6: whether a pod "used to have an IP" is answered by the cache, not by the event. A Failed/evicted pod may arrive
+// without its IP, and as a DELETE (no old object) - the pod cache then finds the IP it indexed the pod under in its own
+// reverse index. In PodCache.onEvent every return on the "event carries no IP" branch is preceded on all paths by a read
+// of PodCache.ipByPods (through a helper). Otherwise the stale pod stays indexed under an IP that is handed to another
+// workload: two owners for one address, and an identity that no current object carries.
+func c15r6(c *Ctx) {
+	p := c.P
+	fn := p.Func(pkgKubeCtl, "PodCache", "onEvent")
+	rev := p.Field(pkgKubeCtl, "PodCache", "ipByPods")
+	var noIP []Edge
+	for _, i := range allIfs(fn) {
+		v, neg := stripNot(i.Cond)
+		b, ok := v.(*ssa.BinOp)
+		if !ok || (b.Op != token.EQL && b.Op != token.NEQ) {
+			continue
+		}
+		call, ok := b.X.(*ssa.Call)
+		if !ok {
+			continue
+		}
+		if bi, ok := call.Call.Value.(*ssa.Builtin); !ok || bi.Name() != "len" {
+			continue
+		}
+		if f := fieldOfLoad(call.Call.Args[0]); f == nil || f.Name() != "PodIP" {
+			continue
+		}
+		if k, ok := b.Y.(*ssa.Const); !ok || k.Value == nil || k.Int64() != 0 {
+			continue
+		}
+		idx := 0
+		if (b.Op == token.NEQ) != neg {
+			idx = 1
+		}
+		noIP = append(noIP, Edge{i.Block(), idx})
+	}
+	c.Check("onEvent: the no-IP branch found", fn.Pos(), len(noIP) == 1, "expected exactly one test of the event pod's Status.PodIP for emptiness")
+	readsRev := func(ins ssa.Instruction) bool {
+		if u, ok := ins.(*ssa.UnOp); ok && u.Op == token.MUL {
+			if fa, ok := u.X.(*ssa.FieldAddr); ok && fieldVar(fa.X.Type(), fa.Field) == rev {
+				return true
+			}
+		}
+		return false
+	}
+	for _, e := range noIP {
+		bad, found := pathAvoidingE(e.To(), nil, deepMust(readsRev, 2), isReturn, nil, nil)
+		pos := e.From.Instrs[len(e.From.Instrs)-1].Pos()
+		if bad != nil {
+			pos = bad.Pos()
+		}
+		c.Check("onEvent: a pod without IP is dismissed only after the cache's reverse index was consulted", pos, !found,
+			"PodCache.onEvent can return for an event whose pod carries no IP without having looked the pod up in ipByPods: the IP the pod is indexed under is then taken from the event (or not at all), and an evicted pod that arrives as a DELETE, or after its Failed update was coalesced, is never removed - its address keeps a second owner and its identity outlives the object")
+	}
 	c.Floor(2)
 }
